@@ -87,7 +87,8 @@ def hexDecodeStr (s : String) : Option String := do
 
 -- DRIVER: c45 => XknxVerif.MCP.handle
 /-- `paginate <n> <limit> <offset>` over items 0..n-1 → `<window as a-b|-> <reached> <next|none>`
-`list <main|-> <needlehex|none> <limit> <offset>` → `<numbers comma|-> <total> <next|none> <reached>` -/
+`list <main|-> <needlehex|none> <limit> <offset>` → `<numbers comma|-> <total> <next|none> <reached>`
+`walk <main|-> <needlehex|none> <limit>` → `<all numbers over the pages|-> <pages>` (client following next_offset from 0) -/
 def handle : List String → String
   | ["paginate", n, l, o] =>
     match n.toNat?, parseInt? l, parseInt? o with
@@ -108,6 +109,16 @@ def handle : List String → String
       let nx := match r.next with | some x => toString x | none => "none"
       s!"{ds} {r.total} {nx} {if r.reached then 1 else 0}"
     | _, _, _, _ => "bad-op"
+  | ["walk", m, nd, l] =>
+    let m? : Option (Option Nat) := if m == "-" then some none else m.toNat?.map some
+    let nd? : Option (Option String) := if nd == "none" then some none else (hexDecodeStr nd).map some
+    match m?, nd?, parseInt? l with
+    | some m, some nd, some l =>
+      let ms := listMatches table m nd
+      let pages := walk ms l (2 * ms.length + 5) 0
+      let ds := pages.flatten.map (·.numberStr)
+      s!"{if ds.isEmpty then "-" else ",".intercalate ds} {pages.length}"
+    | _, _, _ => "bad-op"
   | _ => "bad-op"
 
 end XknxVerif.MCP
